@@ -16,6 +16,7 @@ import ast
 
 from verifkit import cache, pat
 from verifkit.core import Outcome
+from verifkit.known_names import is_new_helper
 from verifkit.model import AnalysisError
 from verifkit.own import ownership
 from rules import C08
@@ -355,8 +356,8 @@ def r11_3(ctx):
                 if via is not None and via.startswith("jordancurve.JordanCurve."):
                     continue
                 helper = ctx.model.funcs.get(via) if via else None
-                if helper is not None and helper.mod == "shape" and helper.name.startswith("_") \
-                        and not helper.name.endswith("__") and depth < 3:
+                if helper is not None and helper.mod == "shape" and not helper.name.endswith("__") and depth < 3 \
+                        and (helper.name.startswith("_") or is_new_helper(helper.name)):
                     if not undelegated(via, depth + 1):
                         continue
                 bad_.append(e)
